@@ -22,6 +22,16 @@ check("C20", "exploration",
       "git 2.39.5 as reference reader/writer; values git cannot itself round-trip are excluded from the interop comparison only",
       "DESIGN.md §5 C20")
 
+check("C19", "exploration",
+      "runtime monitors on the real encoders/decoders: frame validator on every emitted stream, chunking adversary feeding recv()/parse() every partition of short streams, independent reference decoder, exhaustive hostile length prefixes, git upload-pack as peer",
+      "Every stream the real pkt_line/write_pkt_line/BufferedPktLineWriter/write_sideband emit is validated frame by frame; "
+      "Protocol, Protocol+eof/unread, ReceivableProtocol and PktLineParser decode it under all 2^(n-1) read partitions "
+      "(short streams) or boundary-straddling partitions (long), and must return the reference payload sequence. All 65536 hex "
+      "prefixes x 4 payload lengths and non-hex classes must give frames or GitProtocolError/HangupException. Exhaustive only "
+      "inside those sub-spaces.",
+      "independent reference decoder in the check; git 2.39.5 upload-pack as peer; frames over 65520 bytes count as malformed only when emitted",
+      "DESIGN.md §5 C19")
+
 ALL = ["C%02d" % i for i in range(1, 21)]
 
 
